@@ -170,7 +170,17 @@ NEGOP = {'<': '>=', '<=': '>', '>': '<=', '>=': '<', '==': '!=', '!=': '=='}
 
 
 def _holds(op, v, c):
-    return {'<': v < c, '<=': v <= c, '>': v > c, '>=': v >= c, '==': v == c, '!=': v != c}[op]
+    if op == '<':
+        return v < c
+    if op == '<=':
+        return v <= c
+    if op == '>':
+        return v > c
+    if op == '>=':
+        return v >= c
+    if op == '==':
+        return v == c
+    return v != c
 
 
 class Universe(object):
@@ -306,9 +316,23 @@ class Universe(object):
         if total > 400000:
             raise AnalysisError('decision table too large (%d assignments over %d atoms)' % (total, len(keys)))
         for combo in itertools.product(*doms):
-            yield dict(zip(keys, combo))
+            d = dict(zip(keys, combo))
+            d['__memo__'] = {}
+            yield d
 
     def eval_lit(self, e, pol, asg):
+        memo = asg.get('__memo__')
+        if memo is not None:
+            k = id(e)
+            v = memo.get(k)
+            if v is None:
+                v = self._eval_raw(e, asg)
+                memo[k] = v
+            return v == pol
+        return self._eval_raw(e, asg) == pol
+
+    def _eval_raw(self, e, asg):
+        pol = True
         c = self.classify(e)
         if c[0] == 'const':
             v = c[1]
@@ -387,7 +411,8 @@ def show(f):
 
 
 def show_asg(asg):
-    return ', '.join('%s=%s' % (k.split(':', 1)[1] if ':' in k else k, v) for k, v in sorted(asg.items()))
+    return ', '.join('%s=%s' % (k.split(':', 1)[1] if ':' in k else k, v) for k, v in sorted(asg.items())
+                     if k != '__memo__')
 
 
 # --------------------------------------------------------------------------- decision tables
